@@ -98,7 +98,7 @@ theorem prog_sendPrepareResponse {e : Env} {as : State} {i : Nat} {w : W} (h : G
     have hlen : w.nd.my < w.nd.prep.length := by rw [h.rn.lens.1, hmy]; exact h.lt
     have hbin : b ∈ ((apply (cfgOf e) as1 (.sendPrepResp i b)).nodes i).myPreps := by rw [hmp]; simp
     have rn1 := g1.rn
-    refine ⟨g1.g.ext x2, ?_, ?_, h.st, h.lt⟩
+    refine ⟨g1.g.ext x2, ?_, ?_, fun b' s hp => g1.blk b' s (by simpa [bcast, stopTx, W.emit, W.upd] using hp), h.st, h.lt⟩
     · refine ⟨rn1.my, by simpa [bcast, stopTx, W.emit, W.upd] using rn1.lens, by rw [hc2]; exact rn1.chain,
         by rw [hh2]; exact rn1.height, ?_, rn1.pidx, ?_, ?_, ?_, ?_, ?_, ?_⟩
       · left
